@@ -59,6 +59,11 @@ def _mk_path(lat, lon, tiers):
         v2 = WMM(date=d2, latitude=12.0, longitude=34.0)
         v2.magnetic_field(lat, lon, hgt, date=None)
         h.check('date=None keeps the object\'s decimal date (2021.349)', h.eq(_xyz(v2), _xyz(r2)))
+        c2 = WMM(date=d2, latitude=lat, longitude=lon, height=hgt)
+        if c2.X is None:
+            h.check('constructor computed the elements (2021.349)', h.false())
+        else:
+            h.check('constructor == method at the decimal date 2021.349', h.eq(_xyz(c2), _xyz(r2)))
         # (iii) frames
         e = WMM(date=DATE, latitude=12.0, longitude=34.0, frame='ENU')
         e.magnetic_field(lat, lon, hgt, date=DATE)
@@ -89,21 +94,19 @@ for _p in PLACES_ALL:
     _mk_path(_p[0], _p[1], ('quick', 'thorough') if _p in PLACES_QUICK else ('thorough',))
 
 
-@harness('C15/dates', functions=[FW + 'reset_date', FW + '__init__'], max_paths=4, bounds='151 dates: finite, enumerated completely')
+@harness('C15/dates', functions=[FW + 'reset_date', FW + '__init__'], max_paths=4,
+         bounds='151 grid dates and 150 mid-grid dates (x.x49): finite, enumerated completely')
 def dates(h):
-    """constructor vs method use the same secular-variation step dt for every grid date (finite domain, enumerated)"""
+    """constructor and method use the same secular-variation step dt and the same file for every listed date (finite domain)"""
     x = h.real('dummy', 0.0, 1.0)
     bad = []
-    for i in range(151):
-        d = round(2015.0 + 0.1 * i, 1)
+    ds = [round(2015.0 + 0.1 * i, 1) for i in range(151)] + [round(2015.049 + 0.1 * i, 3) for i in range(150)]
+    for d in ds:
         a = WMM.__new__(WMM)
-        a.reset_date(d)
-        dt_method = round(a.date_dec, 1)
-        b = WMM.__new__(WMM)
-        b.reset_date(a.date)          # what the constructor hands to magnetic_field
-        dt_ctor = round(b.date_dec, 1)
-        if dt_method != dt_ctor or a.wmm_filename != b.wmm_filename:
-            bad.append((d, dt_method, dt_ctor))
-    h.note(f'date round-trip mismatches: {bad[:8]} (total {len(bad)})')
-    h.check('constructor and method evaluate the model at the same tenth-of-a-year for every grid date (outside KF-C15-date-roundtrip)',
-            (h.kf('KF-C15-date-roundtrip', h.true()) if bad else h.false()) | (h.true() if not bad else h.false()))
+        a.reset_date(d)                                  # what magnetic_field(date=d) does
+        c = WMM(date=d, latitude=10.0, longitude=20.0)   # the constructor path
+        if round(a.date_dec, 1) != round(c.date_dec, 1) or a.wmm_filename != c.wmm_filename:
+            bad.append((d, a.date_dec, c.date_dec))
+    h.note(f'date mismatches: {bad[:8]} (total {len(bad)})')
+    h.check('constructor and method evaluate the model at the same tenth-of-a-year and file for every listed date',
+            h.true() if not bad else h.false())
